@@ -69,6 +69,9 @@ pub struct Plan {
     pub bp: BuilderPath,
     pub out: OutKind,
     pub dest: DestState,
+    /// a pre-existing destination file is LONGER than the bindings that will replace it
+    #[serde(default)]
+    pub old_longer: bool,
     pub sim: SimCfg,
     pub schedule: Option<Vec<u8>>,
     /// "fault-free" | "sweep" | "multi"
@@ -153,44 +156,57 @@ struct Dest {
     final_path: Option<String>,
     /// pre-existing file whose content must survive a failed compile()
     old_path: Option<String>,
+    old_content: Vec<u8>,
 }
 
-fn prepare_dest(p: &Plan, root: &str, ext: &str) -> Dest {
+fn prepare_dest(p: &Plan, root: &str, ext: &str, new_len: usize) -> Dest {
     let d = format!("{root}/out");
     std::fs::create_dir_all(&d).unwrap();
+    let mut old = OLD_CONTENT.as_bytes().to_vec();
+    if p.old_longer {
+        while old.len() < new_len + 700 {
+            old.extend_from_slice(OLD_CONTENT.as_bytes());
+        }
+    }
+    let mut dest = prepare_dest_inner(p, &d, ext, &old);
+    dest.old_content = old;
+    dest
+}
+
+fn prepare_dest_inner(p: &Plan, d: &str, ext: &str, old_bytes: &[u8]) -> Dest {
     match (&p.out, &p.dest) {
-        (OutKind::Stdout, _) => Dest { out: OutSel::Stdout, final_path: None, old_path: None },
-        (OutKind::NoOutput, _) => Dest { out: OutSel::NoOutput, final_path: None, old_path: None },
+        (OutKind::Stdout, _) => Dest { out: OutSel::Stdout, final_path: None, old_path: None, old_content: vec![] },
+        (OutKind::NoOutput, _) => Dest { out: OutSel::NoOutput, final_path: None, old_path: None, old_content: vec![] },
         (OutKind::Dir, st) => {
             let dir = format!("{d}/bindings.d");
             std::fs::create_dir_all(&dir).unwrap();
             let f = format!("{dir}/generated{ext}");
             let old = if *st == DestState::DirWithOld {
-                std::fs::write(&f, OLD_CONTENT).unwrap();
+                std::fs::write(&f, old_bytes).unwrap();
                 Some(f.clone())
             } else {
                 None
             };
-            Dest { out: OutSel::File(dir), final_path: Some(f), old_path: old }
+            Dest { out: OutSel::File(dir), final_path: Some(f), old_path: old, old_content: vec![] }
         }
         (OutKind::File, DestState::ExistingFile) => {
             let f = format!("{d}/bindings{ext}");
-            std::fs::write(&f, OLD_CONTENT).unwrap();
-            Dest { out: OutSel::File(f.clone()), final_path: Some(f.clone()), old_path: Some(f) }
+            std::fs::write(&f, old_bytes).unwrap();
+            Dest { out: OutSel::File(f.clone()), final_path: Some(f.clone()), old_path: Some(f), old_content: vec![] }
         }
         (OutKind::File, DestState::MissingParent) => {
             let f = format!("{d}/no-such-dir/bindings{ext}");
-            Dest { out: OutSel::File(f.clone()), final_path: Some(f), old_path: None }
+            Dest { out: OutSel::File(f.clone()), final_path: Some(f), old_path: None, old_content: vec![] }
         }
         (OutKind::File, DestState::ParentIsFile) => {
             let parent = format!("{d}/plainfile");
-            std::fs::write(&parent, OLD_CONTENT).unwrap();
+            std::fs::write(&parent, old_bytes).unwrap();
             let f = format!("{parent}/bindings{ext}");
-            Dest { out: OutSel::File(f.clone()), final_path: Some(f), old_path: Some(parent) }
+            Dest { out: OutSel::File(f.clone()), final_path: Some(f), old_path: Some(parent), old_content: vec![] }
         }
         (OutKind::File, _) => {
             let f = format!("{d}/bindings{ext}");
-            Dest { out: OutSel::File(f.clone()), final_path: Some(f), old_path: None }
+            Dest { out: OutSel::File(f.clone()), final_path: Some(f), old_path: None, old_content: vec![] }
         }
     }
 }
@@ -348,7 +364,8 @@ impl Scenario for C20Lib {
         simcfg.entropy = root.fork("hashkeys").next_u64();
         simcfg.stack_kb = *root.fork("layout").pick(&[2048usize, 8192]);
         simcfg.capture_stdout = out == OutKind::Stdout;
-        let p = Plan { seed, set, order, malform, backend, delivery, bp, out, dest, sim: simcfg, schedule: None, phase: "fault-free".into() };
+        let old_longer = w.chance(1, 2);
+        let p = Plan { seed, set, order, malform, backend, delivery, bp, out, dest, old_longer, sim: simcfg, schedule: None, phase: "fault-free".into() };
         serde_json::to_value(&p).unwrap()
     }
 
@@ -381,7 +398,7 @@ impl Scenario for C20Lib {
 
         let backend = backend_of(&p);
         let mat = materialise(&p, root);
-        let dest = prepare_dest(&p, root, backend.ext());
+        let dest = prepare_dest(&p, root, backend.ext(), reference.generated.len());
         let srcs = mat.srcs.clone();
         let outsel = dest.out.clone();
         let bp = p.bp.clone();
@@ -472,7 +489,7 @@ impl Scenario for C20Lib {
                         );
                     }
                     if let (Some(_), Some(now)) = (&dest.old_path, &old_now) {
-                        if now != OLD_CONTENT.as_bytes() {
+                        if now != &dest.old_content {
                             out.violate("O2-nothing-on-failure", format!("pre-existing destination changed by a failed compilation; {ctx}"));
                         }
                     }
@@ -495,7 +512,7 @@ impl Scenario for C20Lib {
                         out.violate("O2-nothing-on-failure", format!("mutating I/O after a source read error: {}; {ctx}", mutating.iter().map(|e| format!("{}({})", e.call, e.path)).collect::<Vec<_>>().join(" ")));
                     }
                     if let (Some(_), Some(now)) = (&dest.old_path, &old_now) {
-                        if now != OLD_CONTENT.as_bytes() {
+                        if now != &dest.old_content {
                             out.violate("O2-nothing-on-failure", format!("pre-existing destination changed although reading a source failed; {ctx}"));
                         }
                     }
@@ -510,7 +527,7 @@ impl Scenario for C20Lib {
                 if !hard_write {
                     // the open failed (or the path cannot exist): a pre-existing file keeps its content
                     if let (Some(_), Some(now)) = (&dest.old_path, &old_now) {
-                        if now != OLD_CONTENT.as_bytes() {
+                        if now != &dest.old_content {
                             out.violate("O3-dest-unchanged-when-open-fails", format!("destination content changed although it could not be opened; {ctx}"));
                         }
                     }
